@@ -246,6 +246,13 @@ def report(prop, tier, seed, mod, results, extra, bounded, t0, a, srcroot):
         if not any(f["key"] == r["key"] for f in funcs):
             funcs.append({"key": r["key"], "kind": r["kind"] if not r.get("native_only") else "native-contract-only (bounded)",
                           "sha256": r["sha"], "file": r["file"], "paths": r["paths"]})
+            from pyvc.dsl import REGIONS
+            if r["key"] in REGIONS:
+                r_from, r_to, ps = REGIONS[r["key"]]
+                funcs[-1]["region"] = {"from_statement": r_from, "to_statement": r_to or "end of the enclosing block", "free_variables": ps,
+                                       "dropped": "every statement of the function outside this range (extracted mechanically from the "
+                                                  "real source on each run); the declared types of the free variables are assumptions"}
+                trusted.add(f"region contract {r['key']}: the statements before the verified range establish the declared types of its free variables")
         for e in r["externals"]:
             trusted.add("assumed contract: " + e)
         for ax in r.get("axioms", []):
